@@ -4,7 +4,7 @@ from typing import Any, Callable, Dict, List, Optional, Tuple
 
 import icontract
 
-from vfw.hlib import Tag, FalsyTag, drive, RecRepr, Suspend
+from vfw.hlib import Tag, FalsyTag, drive, RecRepr, Suspend, AwaitableValue
 from vfw.prog import (
     Prog,
     effective,
@@ -98,7 +98,7 @@ class Built:
         self.bare = None  # type: Any
         self.rec = _BuiltRepr(self)
         #: 0 = plain conditions/captures; 1 = coroutine functions (suspending once); 2 = plain functions
-        #: returning an awaitable
+        #: returning a coroutine; 3 = plain functions returning a non-coroutine awaitable
         self.async_conds = 0
         #: None = async_conds applies to every level; otherwise only to the conditions/captures declared at this level
         self.async_level = None  # type: Optional[int]
@@ -207,6 +207,9 @@ def _maybe_async(built: "Built", params: Tuple[str, ...], impl: Callable[[Dict[s
 
     if mode == 1:
         return mkfn(params, aimpl, is_async=True, name=name, awaiting=True)
+    if mode == 3:
+        # a plain function returning an awaitable which is NOT a coroutine (like an asyncio.Future or Task)
+        return mkfn(params, lambda kw: AwaitableValue(impl(kw)), name=name)
     return mkfn(params, aimpl, name=name)  # a plain function returning a coroutine object
 
 
